@@ -731,7 +731,43 @@ def rule_chain_source(ctx):
     ctx.require(sites >= 2, "C05.CHAIN-SOURCE: %d client Session.create sites found, floor 2" % sites)
 
 
+def rule_end_entity(ctx):
+    """END-ENTITY: what is reported about a chain (public key, fingerprint, TACK extension) is taken
+    from the certificate whose key possession was proved - the first one.  Every method of
+    X509CertChain that picks ONE certificate out of `x509List` by a fixed position picks the one
+    getEndEntityPublicKey picks."""
+    from ..condeval import ev, Unknown
+    R = "C05.END-ENTITY"
+    cls = ctx.index.cls("x509certchain:X509CertChain")
+
+    def picks(fi):
+        out = []
+        for n in own_nodes(fi.node):
+            if isinstance(n, ast.Subscript) and attr_chain(n.value) == "self.x509List" \
+                    and not isinstance(n.slice, ast.Slice) and isinstance(n.ctx, ast.Load):
+                try:
+                    out.append((ev(n.slice, {}), n))
+                except (Unknown, TypeError):
+                    out.append((None, n))
+        return out
+    ref = picks(ctx.index.func("x509certchain:X509CertChain.getEndEntityPublicKey"))
+    if len(ref) != 1 or ref[0][0] is None:
+        raise AnalysisError("%s: getEndEntityPublicKey does not pick one fixed certificate" % R)
+    n_sites = 0
+    for name, fi in sorted(cls.methods.items()):
+        for pos, node in picks(fi):
+            n_sites += 1
+            # the same element: equal position (0 and -len are not told apart; -1 is the other end)
+            ctx.check(R, pos == ref[0][0], fi.qname, node,
+                      "%s takes certificate %r of the chain, the proved end-entity certificate is number %r "
+                      "(getEndEntityPublicKey)" % (fi.short, pos, ref[0][0]), fi.loc(node),
+                      what="%s reads the end-entity certificate" % fi.short)
+    if n_sites < 3:
+        raise AnalysisError("%s: only %d fixed picks from x509List found (confirmed 3)" % (R, n_sites))
+
+
 RULES = [
+    ("C05.END-ENTITY", "quick", rule_end_entity),
     ("C05.CHAIN-SOURCE", "quick", rule_chain_source),
     ("C05.AUTH13", "quick", rule_auth13),
     ("C05.GATES", "quick", rule_named_gates),
